@@ -372,7 +372,7 @@ impl Engine for HrEngine {
                         // C10: what is declared non-reloadable is never rewritten
                         let (ty, idh) = k.split_once('/').unwrap();
                         let key = (ty.to_string(), unhexs(idh));
-                        let never = ty == "N0" || ty == "I" || !wx.has_reloader;
+                        let never = ty == "N0" || ty == "AN" || ty == "I" || !wx.has_reloader;   // AN = Arc<N0>: Arc of an opted-out type
                         if never && *rid != 0 { rec.oracle_fail(format!("non-reloadable-rewritten {k} has reload id {rid}")); }
                         if let Some(v0) = goi_created.get(&key) { if v != v0 || *rid != 0 { rec.oracle_fail(format!("get-or-insert-rewritten {k} was stored as {v0} by get_or_insert and is now {v}@{rid}")); } }
                     }
